@@ -139,8 +139,9 @@ class World:
     self.factory = {
         'mem': lambda: im.InMemoryFederatedData(dict(mapping)),
         'sql': sql,
-        'submem': lambda: fdm.SubsetFederatedData(im.InMemoryFederatedData(dict(mapping)), list(view)),
-        'subsql': lambda: fdm.SubsetFederatedData(sql(), list(view)),
+        # id lists naming an id twice (overlapping lists concatenated): the subset is still a SET of clients
+        'submem': lambda: fdm.SubsetFederatedData(im.InMemoryFederatedData(dict(mapping)), list(view) + list(view)[:2]),
+        'subsql': lambda: fdm.SubsetFederatedData(sql(), list(view) + list(view)[-1:]),
         'sqlslice': lambda: sql().slice(start, None),
     }[self.kind]
     self.wit = {'kind': self.kind, 'all_ids': ids, 'view_ids': view if view != ids else 'all', 'insert_order': ins,
